@@ -89,6 +89,13 @@ def thread_stages(profile, caps_quick, quick_cases, caps_thorough, thorough_case
     t = [{"variant": f"thread_c{c}", "binary": "thread_harness", "profile": profile, "cases_per_worker": thorough_cases, "max_seconds": 900} for c in caps_thorough]
     t += [{"variant": f"thread_c{c}", "binary": "thread_harness", "profile": profile, "sweep": True, "extra": [], "cases_per_worker": 0, "max_seconds": 900, "engine": sweep}
           for c in (1, 2, 3)]
+    # variants with scheduling points at the reference-count operations of shared_ptr / weak_ptr (hidden synchronisation);
+    # C15 additionally runs epoch histories there (a coordinator that touches heartbeats), judged by its own oracle kinds
+    smart = "same generators; library and interpreter built with scheduling points at shared_ptr / weak_ptr reference-count operations"
+    profs = [profile] + (["C04"] if profile == "C15" else [])
+    for pr in profs:
+        q.append({"variant": "thread_p3", "binary": "thread_harness", "profile": pr, "cases_per_worker": max(200, quick_cases // 2), "max_seconds": 120, "engine": smart})
+        t += [{"variant": f"thread_p{c}", "binary": "thread_harness", "profile": pr, "cases_per_worker": thorough_cases // 2, "max_seconds": 600, "engine": smart} for c in (2, 3, 4)]
     return {"quick": q, "thorough": t}
 
 
